@@ -178,7 +178,7 @@ pub fn gen_program(rng: &mut Rng, o: &GenOpts) -> Program {
       }
     }
     let out = match rng.below(20) { 0..=9 => OutFn::Hash, 10..=16 => OutFn::Mod(rng.range(2, 4) as u32), _ => OutFn::Const(rng.below(3) as u32) };
-    built[i] = Some(TaskDef { ops, rkind: rkind[i].clone(), tkind: tkind[i].clone(), out });
+    built[i] = Some(TaskDef { ops, rkind: rkind[i].clone(), tkind: tkind[i].clone(), out, wrap: 0 });
   }
   let tasks: Vec<TaskDef> = built.into_iter().map(|t| t.unwrap()).collect();
   Program { tasks, n_res, owner, label: if o.exact_only { "well-formed/exact".into() } else { "well-formed/mixed-checkers".into() } }
@@ -354,7 +354,7 @@ pub fn add_arming(rng: &mut Rng, p: &Program, steps: &mut Vec<Step>) {
 // ---------------------------------------------------------------------------------------------------------------
 
 fn td(ops: Vec<Op>, n_res: usize, n_tasks: usize, out: OutFn) -> TaskDef {
-  TaskDef { ops, rkind: vec![Kind::Exact; n_res], tkind: vec![OKind::Exact; n_tasks], out }
+  TaskDef { ops, rkind: vec![Kind::Exact; n_res], tkind: vec![OKind::Exact; n_tasks], out, wrap: 0 }
 }
 fn rd(r: u32) -> Op { Op::Read { sel: Sel::Const(r), kind: None, fail_stamp: false } }
 fn rq(t: u32) -> Op { Op::Require { sel: Sel::Const(t), ok: None } }
@@ -380,6 +380,16 @@ pub fn curated() -> Vec<(&'static str, Case)> {
       steps: vec![Step::TopDown(vec![0]), Step::Set(0, Some(2)), Step::TopDown(vec![0])],
     }));
   }
+  // K5: T0 reads R1 through T1 (T0 -> T1 -> T2, T2 generates R1). A build of T1 panics right after T1 started to
+  // re-execute (its dependencies are dropped at that point). The next build of T2 rewrites R1 and is diagnosed as a
+  // hidden dependency of T0, although T0 still requires T1 and T1 - once it runs - requires T2.
+  v.push(("k5-path-through-aborted-task", Case {
+    prog: Program {
+      tasks: vec![td(vec![Op::ReadVia { res: 1, via: 1 }], 2, 3, OutFn::Hash), td(vec![rg(1)], 2, 3, OutFn::Hash), td(vec![rd(0), wr(1, Expr::LastMod(4))], 2, 3, OutFn::Hash)],
+      n_res: 2, owner: vec![None, Some(2)], label: "curated/k5".into() },
+    init: vec![Some(1), None],
+    steps: vec![Step::TopDown(vec![0]), Step::Set(0, Some(2)), Step::PanicAt(4), Step::TopDown(vec![1]), Step::Set(0, Some(3)), Step::TopDown(vec![2])],
+  }));
   // F1 shape: require the generator, read the generated resource twice (re-inserted edge).
   v.push(("read-generated-twice", Case {
     prog: Program {
